@@ -78,18 +78,37 @@ impl Property for C03 {
     }
     fn run_case(&self, cfg: &Cfg, i: u64, acc: &mut Acc) {
         let mut r = Rng::keyed(&[cfg.seed, 3, i]);
-        let session = if i % 16 == 15 { gen::gen_edge_session(&mut r) } else { gen::gen_session(&mut r, 6) };
+        let session = if i % 64 == 63 {
+            acc.inc("sessions_with_huge_binary_part");
+            gen::gen_huge_session(&mut r)
+        } else if i % 16 == 15 {
+            gen::gen_edge_session(&mut r)
+        } else {
+            gen::gen_session(&mut r, 6)
+        };
         let enc = encode_session(&session);
         features(acc, &session);
         acc.inc("sessions");
         let nontrivial = session.len() >= 2 || session.iter().any(|r| r.error.is_some() || r.frames.iter().any(|f| f.binary.is_some()));
         let mut expected: Vec<Item> = enc.expected.iter().cloned().map(Item::Resp).collect();
         expected.push(Item::CleanEnd);
-        let segs = [Seg::Whole, Seg::Bytewise, Seg::random(&mut r, enc.bytes.len(), 24)];
+        let mut segs = vec![Seg::Whole, Seg::Bytewise, Seg::random(&mut r, enc.bytes.len(), 24)];
+        if i % 64 == 63 {
+            let b = enc.boundaries[0];
+            for c in [b.saturating_sub(1), b, b + 1, b / 2] {
+                if c > 0 && c < enc.bytes.len() {
+                    segs.push(Seg::Cuts(vec![c]));
+                }
+            }
+            segs.push(Seg::Cuts((1..enc.bytes.len() / 4096).map(|k| k * 4096).collect()));
+            segs.push(Seg::Cuts((1..enc.bytes.len() / 65536 + 1).map(|k| (k * 65536).min(enc.bytes.len() - 1)).collect()));
+        }
         for (k, seg) in segs.iter().enumerate() {
             if *seg == Seg::Bytewise && enc.bytes.len() > 30_000 {
                 continue;
             }
+            // huge sessions: additionally cut right where the big response ends, so that the next response
+            // arrives in the same read as its last bytes or in the following one
             for flavour in [Flavour::Sync, Flavour::Async] {
                 let spec = RunSpec {
                     greeting: GREETING,
@@ -153,7 +172,7 @@ impl Property for C03 {
     fn meta(&self, _cfg: &Cfg, _acc: &Acc) -> Meta {
         Meta {
             level: "exploration",
-            rule: "random abstract sessions of 1-6 responses (0-8 frames, 0-30 fields, keyword-like keys/values, empty/non-ASCII/CR/NUL/10 KiB values, <=1 binary part per frame at any position with hostile payloads, ACK errors incl. u64::MAX codes, single and list form; every 16th session lands on a 4096*2^k buffer edge) encoded by the harness's reference encoder and decoded by the real blocking and async connections (receive(), and in every other session the command()/command_list() shorthands) under whole, byte-at-a-time and random segmentation; compared structurally through the public API incl. Ok(None) after the last response; non-trivial = session with >=2 responses or a binary part or an error; distinct by hash of the encoded bytes".into(),
+            rule: "random abstract sessions of 1-6 responses (0-8 frames, 0-30 fields, keyword-like keys/values, empty/non-ASCII/CR/NUL/10 KiB values, <=1 binary part per frame at any position with hostile payloads, ACK errors incl. u64::MAX codes, single and list form; every 16th session lands on a 4096*2^k buffer edge, every 64th carries a 66-530 KB binary part followed by further responses and is additionally cut around the end of the big response and at 4 KiB / 64 KiB multiples) encoded by the harness's reference encoder and decoded by the real blocking and async connections (receive(), and in every other session the command()/command_list() shorthands) under whole, byte-at-a-time and random segmentation; compared structurally through the public API incl. Ok(None) after the last response; non-trivial = session with >=2 responses or a binary part or an error; distinct by hash of the encoded bytes".into(),
             nontrivial_set: "nontrivial",
             assumptions: vec![
                 "normalisation at the protocol's non-injective points: one-frame list form == single form; successful empty list == one empty frame; a failing command has no frame (output it printed before its ACK belongs to no successful command and is dropped)".into(),
@@ -164,6 +183,7 @@ impl Property for C03 {
             floors: vec![
                 ("binary_payloads".into(), 20),
                 ("runs_through_command_shorthands".into(), 100),
+                ("sessions_with_huge_binary_part".into(), 10),
                 ("list_with_error".into(), 5),
                 ("errors_after_partial_output".into(), 5),
                 ("responses_after_binary".into(), 5),
